@@ -602,13 +602,34 @@ def p_concatenate(ex, path, lst, axis=0):
     return t
 
 
+def _arr_key(x):
+    if x.sym is not None:
+        return ("sym", x.sym[0].get_id())
+    if x.items is not None:
+        return ("items",) + tuple(id(v) if not is_sym(v) else v.get_id() for v in x.items)
+    if getattr(x, "parts", None):
+        ks = [_arr_key(p) for p in x.parts]
+        return None if any(k is None for k in ks) else ("cat",) + tuple(ks)
+    return None
+
+
 @prim("np.sort")
 def p_sort(ex, path, x, **kw):
+    """ascending permutation of the input (fresh array).  np.sort is a function: the same input gives the same output, so the
+    result is memoised per execution context (its facts are re-asserted on the current path)."""
     x = as_tensor(ex, path, x)
     if x.ndim != 1:
         raise Unsupported("np.sort of non-1-d")
     if x.facts.get("sorted"):
         return x.with_(prov="fresh")
+    key = _arr_key(x)
+    cache = ex.__dict__.setdefault("sort_cache", {})
+    if key is not None and key in cache:
+        new, fs = cache[key]
+        for f in fs:
+            path.add(f)
+        return new.with_(prov="fresh")
+    mark = len(path.entries)
     its = items_of(x)
     if its is not None:
         n = len(its)
@@ -617,16 +638,17 @@ def p_sort(ex, path, x, **kw):
         for w in vals + new.items:
             path.add(ground_cnt(new.items, w, True) == ground_cnt(vals, w, True))
             path.add(ground_cnt(new.items, w, False) == ground_cnt(vals, w, False))
-        return new
-    n = toI(x.axes[0].size)
-    new = mk_array(ex, path, "sorted", n, ascending=True, floats=True)
-    A, N = new.sym
-    if "cnt" in x.facts:
-        v = Real("v!srt")
-        path.add(ForAll([v], cnt_lt(A, N, v) == x.facts["cnt"](v, True), patterns=[cnt_lt(A, N, v)]))
-        path.add(ForAll([v], cnt_le(A, N, v) == x.facts["cnt"](v, False), patterns=[cnt_le(A, N, v)]))
-    # every element of the result is an element of the input and conversely (permutation), in skolemised form
-    new.sorted_of = x
+    else:
+        n = toI(x.axes[0].size)
+        new = mk_array(ex, path, "sorted", n, ascending=True, floats=True)
+        A, N = new.sym
+        if "cnt" in x.facts:
+            v = Real("v!srt")
+            path.add(ForAll([v], cnt_lt(A, N, v) == x.facts["cnt"](v, True), patterns=[cnt_lt(A, N, v)]))
+            path.add(ForAll([v], cnt_le(A, N, v) == x.facts["cnt"](v, False), patterns=[cnt_le(A, N, v)]))
+        new.sorted_of = x
+    if key is not None:
+        cache[key] = (new, [f for f, _ in path.entries[mark:]])
     return new
 
 
@@ -701,7 +723,9 @@ def p_nextafter(ex, path, x, d):
 
 
 def _to_int_real(r, ceil=False):
-    return -ToReal(ToInt(-r)) if ceil else ToReal(ToInt(r))
+    """floor / ceil as reals.  ceil is expressed through the *same* floor term (solvers are weak on to_int(-x))"""
+    fl = ToReal(ToInt(r))
+    return If(fl == r, fl, fl + 1) if ceil else fl
 
 
 @prim("np.floor")
